@@ -137,6 +137,9 @@ func Check(c *core.Ctx) (map[string]any, []string, error) {
 						if _, err2 := RunProgram(r.rd.Src, r.sc.TLimit, named); err2 != nil {
 							if strings.Contains(err.Error(), "does not parse") || strings.Contains(err.Error(), "does not compile") {
 								c.Note("generated program set aside (%v)", err)
+								if d := os.Getenv("VERIF_C19_DUMPBAD"); d != "" {
+									os.WriteFile(fmt.Sprintf("%s/bad-%d.js", d, r.sc.TLimit*1000+len(r.rd.Src)%1000), []byte(r.rd.Src), 0o644)
+								}
 							} else {
 								c.Violate(fmt.Sprintf("%v on program:\n%s", err, r.rd.Src), map[string]any{"source": r.rd.Src, "tlimit": r.sc.TLimit, "error": err.Error()})
 							}
@@ -216,6 +219,9 @@ func Check(c *core.Ctx) (map[string]any, []string, error) {
 		enc.Encode(synLine{ID: next, Kind: "syntax", Text: s.text, Off: s.off, Obs: pos})
 	}
 
+	if p := os.Getenv("VERIF_C19_KEEPTRACE"); p != "" {
+		os.WriteFile(p, buf.Bytes(), 0o644) // development aid: judge the same trace by hand with bin/tlcx
+	}
 	var nUnd, nBad, nDev int64
 	tagUnd := map[string]int{}
 	devByTag := map[string]int{}
